@@ -149,10 +149,16 @@ impl Method for PhoneticMethod {
             let modified = file.metadata().unwrap().modified().unwrap();
             // Update the auto correct entries if only the file was modified in the meantime.
             if modified > self.modified {
-                self.suggestion.user_autocorrect = serde_json::from_slice(&read(&mut file))
+                let autocorrect = serde_json::from_slice(&read(&mut file))
                     .unwrap_or_else(|_| HashMap::with_hasher(RandomState::new()));
+                // The cached suggestions were made with the old entries, so start afresh.
+                self.suggestion = PhoneticSuggestion::new(autocorrect);
                 self.modified = modified;
             }
+        } else if self.modified != SystemTime::UNIX_EPOCH {
+            // The file has been removed in the meantime.
+            self.suggestion = PhoneticSuggestion::new(HashMap::with_hasher(RandomState::new()));
+            self.modified = SystemTime::UNIX_EPOCH;
         }
     }
 
